@@ -761,6 +761,16 @@ def script_for(case, hist, pad=0, pad2=None):
     if org["org"] == "api":
         cmds.append(blob("A", 0, to_script(M, org["num"], pad=pad)))
         plan.append(("build", 0))
+    elif org["org"] == "merge":
+        # the two halves (merge_case) are built in contexts of their own (slots 6, 7: label numbers start over in each),
+        # written to separate streams (registers 14, 15) and both streams are read into context 1
+        half = len(M["mods"]) // 2
+        for k, (slot, how) in enumerate(((6, "cb"), (7, "file"))):
+            part = {"mods": M["mods"][k * half:(k + 1) * half]}
+            cmds += ["N %d" % slot, blob("A", slot, to_script(part, "canon", pad=pad)), "W %d %s 0 %d" % (slot, how, 14 + k)]
+            plan += [("new", slot), ("merge_build", 0), ("merge_write", 0)]
+        cmds += ["r 0 cb 14", "r 0 file 15", "D 6", "D 7"]
+        plan += [("merge_read", 0), ("merge_read", 0), ("drop", 6), ("drop", 7)]
     else:
         cmds.append(blob("S", 0, to_text(M)))
         plan.append(("pyscan", 0))
@@ -827,9 +837,11 @@ def judge(case, hist, plan, outs, died, err):
         elif what == "raw":
             if pl[1] in dead_art:
                 continue
-        elif what in ("build", "pyscan"):
+        elif what in ("build", "pyscan", "merge_build", "merge_write", "merge_read"):
             if o.kind in ("E", "X"):
                 dead_ctx.add(pl[1])
+            if o.kind == "X":
+                continue
         elif pl[1] in dead_ctx:
             continue
         if o.kind == "X":
@@ -1008,6 +1020,19 @@ def gen_modules(cfg, n=None, workers=4, seed=1, timeout=1500, env=None):
     cases = [{"M": norm_mods(o["mods"]), "NF": norm_mods(o["textnf"])} for o in r.outs]
     r.outs, r.out = [], ""          # the raw output of a large enumeration is not needed any more
     return cases, r
+
+
+def merge_case(case):
+    """the case of origin "merge": M followed by a copy of M whose modules are renamed (the two halves are built in
+    separate contexts, so the copy reuses every label number of the original)"""
+    def twice(X):
+        Y = copy.deepcopy(X)
+        for m in Y["mods"]:
+            m["name"] += "_b"
+        return {"mods": copy.deepcopy(X["mods"]) + Y["mods"]}
+    out = {k: v for k, v in case.items() if k not in ("exec", "prog")}
+    out["M"], out["NF"] = twice(case["M"]), twice(case["NF"])
+    return out
 
 
 def text_expressible(M):
